@@ -213,6 +213,25 @@ def main(argv=None):
                             break
             ctx.notes.append('committed parser variant analysed as well: %d obligations'
                              % len(ctx2.obls))
+        if tier == 'thorough':
+            # other build configurations of the same tree (assert() compiled out;
+            # profiling enabled): a clause must hold in every configuration a user can build
+            for cfg in getattr(mod, 'THOROUGH_CONFIGS', ('ndebug', 'profiling')):
+                fdir_c, info_c = extract.prepare(config=cfg)
+                prog_c = Program(fdir_c, 'regen')
+                ctx_c = Ctx(prop, tier, prog_c)
+                mod.run(ctx_c)
+                base = {(o['rule'], o['key']): o['ok'] for o in ctx.obls}
+                added = 0
+                for o in ctx_c.obls:
+                    k = (o['rule'], o['key'])
+                    if k not in base or (base[k] and not o['ok']):
+                        o = dict(o)
+                        o['key'] += '@' + cfg
+                        ctx.obls.append(o)
+                        added += 1
+                ctx.notes.append('configuration %s analysed as well: %d obligations, %d not present or '
+                                 'different in the configured build' % (cfg, len(ctx_c.obls), added))
         fixtures = run_fixtures(prop, mod, tier)
         extra = {}
         if tier == 'thorough' and hasattr(mod, 'thorough_extra'):
